@@ -13,7 +13,7 @@
    correspondence check, not proved: C05 is `partial` in that sense (DESIGN.md section 10). *)
 From Coq Require Import List NArith.
 From DesVerif Require Import Timer.Driver Timer.QueueLemmas Timer.Inv Timer.Exact Timer.Futures Timer.FutureLaws Timer.Model Timer.Compose
-  Timer.Frag Timer.E2EInv Timer.E2ELoop Timer.E2EInit.
+  Timer.Frag Timer.E2EInv Timer.E2ELoop Timer.E2EInit Timer.Fresh.
 Import ListNotations.
 Open Scope N_scope.
 
@@ -30,7 +30,7 @@ Print Assumptions C05_Inv_wake_preserved.
 Theorem C05_Inv_wake_every_history : forall tr, valid_trace (0, new_driver) tr ->
   let now := fst (fst (run_trace true (0, new_driver) tr)) in
   let dr := snd (fst (run_trace true (0, new_driver) tr)) in
-  forall d es, In (d, es) (pending dr) -> es <> [] ->
+  forall d es, In (d, es) (pending dr) -> es <> [] -> d < TMAX ->
   exists w, In w (scheduled dr) /\ now <= w /\ w <= d.
 Proof. intros tr Hv. exact (proj2 (trace_inv tr (0, new_driver) inv_init Hv)). Qed.
 Print Assumptions C05_Inv_wake_every_history.
@@ -39,14 +39,17 @@ Print Assumptions C05_Inv_wake_every_history.
    correspondence check evaluates on the REAL driver after every event through the hook
    Driver::verif_snapshot: slots sorted by distinct deadlines, none in the past, the front slot
    holds a timer, and next_wakeup itself is a scheduled wake-up w with now < w <= deadline for
-   every slot that holds a live timer. *)
+   every slot that holds a live timer.  [TMAX] is SimTime::MAX, the deadline of a far-future
+   Sleep (`now + duration` not representable): such a timer never elapses, the code never
+   schedules a wake-up for it (deactivate compares with next_wakeup = MAX), and the theorems
+   speak about the finite deadlines d < TMAX. *)
 Theorem C05_snapshot_invariant : forall tr, valid_trace (0, new_driver) tr ->
   let now := fst (fst (run_trace true (0, new_driver) tr)) in
   let dr := snd (fst (run_trace true (0, new_driver) tr)) in
   sorted (pending dr) /\
   (forall d es, In (d, es) (pending dr) -> now < d) /\
   match pending dr with (_, []) :: _ => False | _ => True end /\
-  (forall d es, In (d, es) (pending dr) -> es <> [] ->
+  (forall d es, In (d, es) (pending dr) -> es <> [] -> d < TMAX ->
      exists w, next_wakeup dr = Some w /\ In w (scheduled dr) /\ now < w /\ w <= d).
 Proof.
   intros tr Hv. destruct (trace_snap tr (0, new_driver) inv_init Hv snap_init) as [H1 H2 H3 H4].
@@ -64,7 +67,7 @@ Print Assumptions C05_never_early.
 
 (* in every history, the event that wakes a timer is stamped exactly with its deadline *)
 Theorem C05_woken_exactly_at_deadline : forall tr, valid_trace (0, new_driver) tr ->
-  forall t d es, In (t, (d, es)) (snd (run_trace true (0, new_driver) tr)) -> es <> [] -> t = d.
+  forall t d es, In (t, (d, es)) (snd (run_trace true (0, new_driver) tr)) -> es <> [] -> d < TMAX -> t = d.
 Proof. intros tr Hv. exact (log_exact tr (0, new_driver) inv_init Hv). Qed.
 Print Assumptions C05_woken_exactly_at_deadline.
 
@@ -73,7 +76,7 @@ Print Assumptions C05_woken_exactly_at_deadline.
    at exactly d -- or still registered with now < d and a wake-up w, now <= w <= d, waiting
    in the event set (so the run cannot end and no event can overtake d). *)
 Theorem C05_never_late_never_lost : forall tr st id d,
-  Inv (fst st) (snd st) -> valid_trace st tr -> live (snd st) id d -> untouched id tr ->
+  Inv (fst st) (snd st) -> valid_trace st tr -> live (snd st) id d -> d < TMAX -> untouched id tr ->
   (exists es, In (d, (d, es)) (snd (run_trace true st tr)) /\ In id es) \/
   (live (snd (fst (run_trace true st tr))) id d /\ fst (fst (run_trace true st tr)) < d /\
    exists w, In w (scheduled (snd (fst (run_trace true st tr)))) /\ fst (fst (run_trace true st tr)) <= w /\ w <= d).
@@ -82,7 +85,7 @@ Print Assumptions C05_never_late_never_lost.
 
 (* a run that has ended (no wake-up left in the event set) woke it at exactly d *)
 Theorem C05_complete_run_wakes_at_deadline : forall tr st id d,
-  Inv (fst st) (snd st) -> valid_trace st tr -> live (snd st) id d -> untouched id tr ->
+  Inv (fst st) (snd st) -> valid_trace st tr -> live (snd st) id d -> d < TMAX -> untouched id tr ->
   scheduled (snd (fst (run_trace true st tr))) = [] ->
   exists es, In (d, (d, es)) (snd (run_trace true st tr)) /\ In id es.
 Proof. exact complete_run_wakes_at_deadline. Qed.
@@ -130,8 +133,8 @@ Print Assumptions C05_composite_event_is_driver_event.
    run of the model ENDS (the loop's fuel is never exhausted), every task has finished, and
    task k has logged exactly  exp_run (t_start k) (t_steps k):  the entry after sleep(d) begun
    at x is x + d, after sleep_until(t) it is max x t -- every await returned at exactly its
-   deadline.  [init_ok]: the task is as the decoder produces it (not yet polled, module < 2)
-   and its steps lie in the fragment; [decode_init_ok] shows that every script line over the
+   deadline.  [init_ok]: the task is as the decoder produces it (not yet polled, module < 2),
+   its steps lie in the fragment and the deadlines it prescribes are finite (< TMAX); [decode_init_ok] shows that every script line over the
    fragment decodes to such tasks.  The proof composes the driver invariant
    (event_body_inv / deactivate_snap), the futures' contract, the executor's run over the
    woken tasks, and the event-set facts of C01's specification (SI: fetch returns a pending
@@ -152,9 +155,35 @@ Proof. exact composite_sleep_prefix. Qed.
 Print Assumptions C05_composite_sleep_prefix.
 
 Theorem C05_fragment_scripts_decode_ok : forall input,
-  Forall (fun tk => Forall frag_step (t_steps tk)) (decode input) -> Forall init_ok (decode input).
+  Forall (fun tk => Forall frag_step (t_steps tk) /\ Forall (fun x => x < TMAX) (exp_run (t_start tk) (t_steps tk))) (decode input) ->
+  Forall init_ok (decode input).
 Proof. exact decode_init_ok. Qed.
 Print Assumptions C05_fragment_scripts_decode_ok.
+
+(* The premise under the removal-by-id arguments: TimerSlot::remove(id) takes the FIRST entry
+   with that id.  If the ids of a slot are pairwise distinct this is exactly the entry of the
+   Sleep that asks (it is gone afterwards, every other entry stays, distinctness is kept);
+   and every Sleep a task step creates draws a fresh id from the counter (at least its value
+   before the step, below its value after, all different), which reset and poll never change.
+   (For the sleep/sleep_until/log fragment distinctness is part of the proved end-to-end
+   invariant; for the other steps it rests on these two facts.  The hook a166d25 reports
+   entry COUNTS only, so the check cannot read ids off the real driver.) *)
+Theorem C05_removal_by_id_needs_distinct_ids :
+  (forall id es es', NoDup es -> ents_remove id es = Some es' ->
+     ~ In id es' /\ NoDup es' /\ forall x, x <> id -> (In x es <-> In x es')) /\
+  (forall now s iv dr nid lg,
+     let r := start_step0 now s iv dr nid lg in
+     nid <= snd (fst r) /\
+     match fst (fst (fst (fst r))) with
+     | Some a => NoDup (aw_sids a) /\ forall i, In i (aw_sids a) -> nid <= i /\ i < snd (fst r)
+     | None => True
+     end) /\
+  (forall now s dr, sid (snd (fst (sleep_poll now s dr))) = sid s) /\
+  (forall s d' dr, sid (fst (sleep_reset s d' dr)) = sid s).
+Proof.
+  split; [exact ents_remove_exact|]. split; [exact start_step0_fresh|]. split; [exact sleep_poll_sid|exact sleep_reset_sid].
+Qed.
+Print Assumptions C05_removal_by_id_needs_distinct_ids.
 
 (* a deadline that is already reached completes at once, without registering *)
 Theorem C05_due_deadline_completes_immediately : forall now s dr, deadline s <= now ->
@@ -276,4 +305,28 @@ Qed.
    a message at 2 spawns task 1, which sends at once *)
 Example C05_nonvacuous_message_cancels_earliest_timer :
   firstn 10 (run [0; 2; 7; 0; 0; 11; 10; 0; 2; 20; 5; 0; 2; 9; 0; 5]) = [3; 2; 1; 20; 1; 1; 2; 1; 1; 20].
+Proof. vm_compute. reflexivity. Qed.
+
+(* A far-future Sleep (deadline SimTime::MAX = TMAX) is registered like any other but never
+   gets a wake-up: timer 1 (deadline TMAX) and timer 2 (deadline 10) are registered at 0; only
+   10 is scheduled; after it fired the queue still holds timer 1, nothing is scheduled, and the
+   run ends -- Inv_wake speaks about the finite deadlines. *)
+Example C05_nonvacuous_far_future :
+  let tr := [EOther 0 [Register 1 TMAX; Register 2 10]; EWake []] in
+  valid_trace (0, new_driver) tr /\
+  run_trace true (0, new_driver) tr =
+    (10, {| pending := [(TMAX, [1])]; next_wakeup := None; scheduled := [] |}, [(10, (10, [2]))]).
+Proof.
+  cbn zeta. split; [|vm_compute; reflexivity].
+  split; [split; [vm_compute; discriminate|split; [intros w []|repeat constructor]]|].
+  split; [exists 10; split; [vm_compute; reflexivity|constructor]|exact I].
+Qed.
+
+(* the keep-alive scenario of the seeded change far_future_shared_id in the composite model: both
+   tasks create a far-future sleep at 3 and arm it for 13; task 0 re-arms at 7 (to 27), task 1's
+   timer still fires at exactly 13 *)
+Example C05_nonvacuous_keepalive_equal_deadlines :
+  firstn 14 (run [0; 2; 10; 0; 0; 1; 3; 13; 1; 2305843009213693952; 10; 4; 20;
+                        10; 0; 0; 1; 3; 13; 1; 2305843009213693952; 10; 50; 5])
+  = [4; 3; 7; 1; 27; 1;  3; 3; 13; 0; 1;  1; 27; 0].
 Proof. vm_compute. reflexivity. Qed.
